@@ -225,6 +225,29 @@ func keyableSexp(e sx.Sexp) bool {
 	return true
 }
 
+// keyableVal: the same question asked of the built value (a MutableHashValue may have dropped an entry that the op line
+// lists: Put replaces the entry indexed under the same key bytes)
+func keyableVal(v px.Value) bool {
+	if h, ok := asHash(v); ok {
+		v = h
+	}
+	switch v := v.(type) {
+	case *types.Sensitive, px.TypedName, types.Deferred, px.Parameter:
+		return false
+	case *types.Array:
+		ok := true
+		v.Each(func(e px.Value) { ok = ok && keyableVal(e) })
+		return ok
+	case *types.Hash:
+		ok := true
+		v.EachPair(func(k, e px.Value) { ok = ok && keyableVal(k) && keyableVal(e) })
+		return ok
+	case *types.HashEntry:
+		return keyableVal(v.Key()) && keyableVal(v.Value())
+	}
+	return true
+}
+
 // forceKind touches what the new kinds compute lazily (typedName.canonical, typedName.parts)
 func forceKind(v px.Value) {
 	switch v := v.(type) {
